@@ -87,4 +87,10 @@ CHECKS = {
         design_ref="DESIGN.md §4 C20",
         note="IANA validity is prescribed only for a fixed list of well-known codes and obvious non-codes; short language names are not prescribed.",
     ),
+    "C06": dict(
+        technique="property-based testing with an adversarial text alphabet: per-channel round-trip oracle (parser-recovered text == source cell modulo documented normalisations) and a metamorphic skeleton-invariance oracle (same form with benign text must give the same element/attribute-name tree)",
+        text="Random small forms with every text-bearing channel filled with XML metacharacters, entity/CDATA/comment fragments, quotes, braces, astral/RTL/NBSP/ZWJ characters and significant whitespace, with and without embedded references, in 0-3 languages; the run is inconclusive (exit 2) if any channel was never exercised.",
+        design_ref="DESIGN.md §4 C06",
+        note="Characters XML 1.0 cannot represent are outside this alphabet (see C01 edge probes). The literal label '-' is indistinguishable from the itext placeholder by design.",
+    ),
 }
